@@ -39,6 +39,16 @@ LEVEL = {
         "design_ref": "5.9", "note": "assertions limited to the request shapes the statement names (exact, hint-less, retransmission of such)",
         "technique": "stateful property-based testing (rapid) against a held-set model",
     },
+    "C02": {
+        "text": "Randomised model-based exploration of DISCOVER/REQUEST/restart histories (and concurrent phases) through rangeplugin.Plugin.Setup4 on a real sqlite database, against a reference lease table.",
+        "design_ref": "5.2", "note": "sampling; schedules of the concurrent phase are the Go scheduler's",
+        "technique": "stateful property-based testing (rapid) against a reference lease table",
+    },
+    "C03": {
+        "text": "Every prefix of every generated history is a crash point: the database is copied, read independently, reopened and probed; the restored bindings must equal the model.",
+        "design_ref": "5.3", "note": "quiescent crash points only (no torn pages)",
+        "technique": "property-based testing (rapid) with crash-point enumeration per history and an independent database reader",
+    },
 }
 
 NOT_APPLICABLE = [
@@ -49,6 +59,8 @@ NOT_APPLICABLE = [
 ENGINES = [
     {"name": "alloc", "path": "harness/alloc", "serves_properties": ["C04", "C05", "C06", "C07", "C20"],
      "kind_free_text": "rapid state-machine style histories over the two bitmap allocators against a set model; math/big differential for the prefix arithmetic"},
+    {"name": "lease4", "path": "harness/lease4", "serves_properties": ["C02", "C03"],
+     "kind_free_text": "DHCPv4 request/restart histories through rangeplugin.Plugin.Setup4 on sqlite files, reference lease table, crash-point copies"},
     {"name": "pd6", "path": "harness/pd6", "serves_properties": ["C08", "C09"],
      "kind_free_text": "DHCPv6 prefix-delegation message histories (wire-built requests) through prefix.Plugin.Setup6 against an owner table and held sets"},
 ]
